@@ -145,7 +145,8 @@ def run(ctx):
     # exhaustive sweep over all Unicode scalar values (conversion off), sharded over processes
     import multiprocessing as mp
     docs = list(exhaustive_docs())
-    with mp.Pool(14) as pool:
+    # spawn, not fork: the parent has already run polars (threads), a forked child can deadlock
+    with mp.get_context("spawn").Pool(14) as pool:
         outs = pool.map(_sweep_worker, [(i, d) for i, d in enumerate(docs)], chunksize=4)
     stats = {}
     for cls, rec in outs:
